@@ -252,7 +252,7 @@ def build_op(terms):
     return op
 
 
-def h_ansatz(env, which, n_mos=2, n_electrons=2, spin=0, utd=False, signs=None, canary=False):
+def h_ansatz(env, which, n_mos=2, n_electrons=2, spin=0, utd=False, signs=None, canary=False, history=None):
     from tangelo.toolboxes.ansatz_generator.uccsd import UCCSD
     from tangelo.toolboxes.ansatz_generator.upccgsd import UpCCGSD
     from tangelo.toolboxes.ansatz_generator.uccgd import UCCGD
@@ -288,6 +288,15 @@ def h_ansatz(env, which, n_mos=2, n_electrons=2, spin=0, utd=False, signs=None, 
     else:     # one sign pattern per shape (keeps the number of solver-explored sign branches at one)
         th = [env.real(f"t{i}", F(1, 100), 3) if signs[i % len(signs)] > 0 else env.real(f"t{i}", -3, F(-1, 100)) for i in range(a.n_var_params)]
     a.build_circuit(th)
+    if history:
+        # the circuit after a HISTORY of updates (a parameter exactly zero, then non-zero again) is still in the sector:
+        # conservation is a property of every state the ansatz object can be brought to, not only of freshly built ones
+        for step, zero_at in enumerate(history):
+            if zero_at is None:
+                nxt = [env.real(f"u{step}_{i}", F(1, 100), 3) if (i + step) % 2 else env.real(f"u{step}_{i}", -3, F(-1, 100)) for i in range(a.n_var_params)]
+            else:
+                nxt = [0.0 if i == zero_at % a.n_var_params else x for i, x in enumerate(th)]
+            a.update_var_params(nxt)
     nq = a.circuit.width
     st = R.run_gates(a.circuit._gates, nq)
     n_alpha, n_beta = (n_electrons + spin) // 2, (n_electrons - spin) // 2
@@ -393,6 +402,10 @@ def shapes(tier, seed):
         if tier == "thorough":
             out.append(Shape(f"ansatz/{which}/6q/triplet/utd0", h_ansatz,
                              dict(which=which, n_mos=3, n_electrons=2, spin=2, utd=False, signs=(1, -1)), modules=MODS, max_paths=64))
+    for which, nm_, ne_, zs in (("UCCSD", 2, 2, (1, 0)), ("UCCSD", 3, 2, (4, 3, 2)), ("UCCGD", 2, 2, (0, 1)), ("UpCCGSD", 2, 2, (2, 0))):
+        for z in (zs if tier == "thorough" else zs[:1]):
+            out.append(Shape(f"ansatz/{which}/{2 * nm_}q/history/zero{z}", h_ansatz,
+                             dict(which=which, n_mos=nm_, n_electrons=ne_, spin=0, utd=False, signs=(1, -1), history=(z, None)), modules=MODS, max_paths=64))
     out.append(Shape("ansatz/UCC1", h_ansatz, dict(which="UCC1"), modules=MODS))
     out.append(Shape("ansatz/UCC3", h_ansatz, dict(which="UCC3"), modules=MODS))
     out.append(Shape("canary/ansatz/UCCSD", h_ansatz, dict(which="UCCSD", canary=True), modules=MODS, canary=True, max_paths=64))
